@@ -11,7 +11,7 @@ use serde_json::{json, Value};
 pub static ENGINE: Engine = Engine {
     prop: "C16",
     level: "exploration",
-    rule: "the real max_clique_gen binary on EVERY edge set over the vertex names {a,b,c} including self-loops (512 graphs; thorough: every loop-free edge set over {a,b,c,d}, 4096 graphs), every edge LIST of <= 3 edges over {a,b,c} (duplicates, both listing orders), the empty file, Windows line endings, and name families {x1, y', _z}, {a, v_a, b} (a vertex named like another vertex's copy) and {a_b, c, a, b_c} (colliding concatenations) ; every undirected graph on five vertices; structured graphs (paths, cycles, stars, complete, wheels, two cliques, bipartite) on 6..10 vertices with one-, two- and three-digit vertex names, and graphs on 12..20 vertices (well-formedness, variable set, exact cliques with -a); x {-u} x {-a}. Oracle: the emitted text is parsed by the reference parser and evaluated by brute force over all assignments (quantifier by enumeration); its models, read as vertex sets with unmentioned vertices unconstrained, must equal the brute-force maximum cliques (all cliques with -a) under the directed / undirected reading; the real `rsbdd -t -f true` on the same text must list the same sets. distinct = distinct (edge list, flags)",
+    rule: "the real max_clique_gen binary on EVERY edge set over the vertex names {a,b,c} including self-loops (512 graphs; thorough: every loop-free edge set over {a,b,c,d}, 4096 graphs), every edge LIST of <= 3 edges over {a,b,c} (duplicates, both listing orders), the empty file, Windows line endings, and name families {x1, y', _z}, {a, v_a, b} (a vertex named like another vertex's copy) and {a_b, c, a, b_c} (colliding concatenations) ; every undirected graph on five vertices; structured graphs (paths, cycles, stars, complete, wheels, two cliques, bipartite) on 6..10 vertices with one-, two- and three-digit vertex names, graphs on 12..20 vertices (well-formedness, variable set, exact cliques with -a) and on 257 and 300 vertices (clique constraint and maximality premise judged on every vertex set of size <= 2); x {-u} x {-a}. Oracle: the emitted text is parsed by the reference parser and evaluated by brute force over all assignments (quantifier by enumeration); its models, read as vertex sets with unmentioned vertices unconstrained, must equal the brute-force maximum cliques (all cliques with -a) under the directed / undirected reading; the real `rsbdd -t -f true` on the same text must list the same sets. distinct = distinct (edge list, flags)",
     assumptions: &["clique = vertex set whose distinct members are pairwise adjacent; adjacency without -u needs both directions, with -u either", "vertex names are identifiers; graphs of <= 4 vertices"],
     max_shards: 64,
     run,
@@ -209,6 +209,161 @@ fn check_graph_large(ctx: &mut Ctx, edges: &[(String, String)], u: bool, all: bo
     }
 }
 
+/// Graphs with more than 256 vertices (path plus two chords). The full truth function is out
+/// of reach, so the emitted formula is judged on every vertex set of size <= 2 (exactly the
+/// sets that decide cliquehood of a graph): its top-level conjuncts other than the maximality
+/// quantifier must hold exactly on the cliques among them, and so must the premise of the
+/// quantified implication under the vertex -> copy renaming read off its two counting lists.
+/// Conjuncts are re-evaluated only when they mention a chosen vertex (their value otherwise is
+/// the one under the all-false assignment, computed once).
+fn check_graph_huge(ctx: &mut Ctx, n: usize, u: bool, all: bool) {
+    let hcase = json!({"part": "huge", "n": n, "undirected": u, "all": all});
+    ctx.begin_case(|| hcase.clone());
+    ctx.count("evaluations", 1);
+    ctx.count("huge_graphs", 1);
+    ctx.distinct(&("huge", n, u, all));
+    let key = format!("{TAG} path with chords on {n} vertices{}{}", if u { " -u" } else { "" }, if all { " -a" } else { "" });
+    let name = |i: usize| format!("x{i}");
+    let mut e_idx: Vec<(usize, usize)> = (0..n - 1).map(|i| if i % 3 == 0 { (i + 1, i) } else { (i, i + 1) }).collect();
+    e_idx.push((0, n - 1));
+    e_idx.push((n / 2, 3));
+    if !u {
+        // directed reading: an edge counts only if both orientations are listed; list some twice
+        for i in (0..n - 1).step_by(2) {
+            e_idx.push((i + 1, i));
+            e_idx.push((i, i + 1));
+        }
+    }
+    let csv: String = e_idx.iter().map(|(a, b)| format!("{},{}\n", name(*a), name(*b))).collect();
+    let mut args = vec![];
+    if u {
+        args.push("-u".to_string());
+    }
+    if all {
+        args.push("-a".to_string());
+    }
+    let g = run_bin("max_clique_gen", &args, Some(csv.as_bytes()), &[]);
+    if !g.ok() {
+        ctx.violation(key, format!("max_clique_gen failed: {} {}", g.describe(), g.err_tail()), hcase);
+        return;
+    }
+    let text = g.out();
+    let has = |x: usize, y: usize| e_idx.iter().any(|(a, b)| *a == x && *b == y);
+    let mut adj = vec![vec![false; n]; n];
+    for i in 0..n {
+        for j in 0..n {
+            adj[i][j] = if u { has(i, j) || has(j, i) } else { has(i, j) && has(j, i) };
+        }
+    }
+    // deep conjunction chains: parse, walk and drop on a thread with a large stack
+    let verdict: Result<Option<String>, String> = std::thread::scope(|sc| {
+        std::thread::Builder::new()
+            .stack_size(1 << 30)
+            .spawn_scoped(sc, || -> Result<Option<String>, String> {
+                refl::MAX_DEPTH.with(|d| d.set(50_000_000));
+                let ast = refl::parse(&text).map_err(|e| format!("the output is not a well-formed formula: {e}"))?;
+                let cs = crate::puzzles::conjuncts(&ast);
+                let (quant, plain): (Vec<&refl::Ast>, Vec<&refl::Ast>) = cs.iter().partition(|c| matches!(c, refl::Ast::Q(..)));
+                let judge = |conj: &[&refl::Ast], vname: &dyn Fn(usize) -> String, what: &str| -> Option<String> {
+                    let idx: FxHashMap<String, usize> = (0..n).map(|i| (vname(i), i)).collect();
+                    let mut by_v: Vec<Vec<usize>> = vec![vec![]; n];
+                    let mut base: Vec<bool> = vec![];
+                    let mut env: FxHashMap<String, bool> = (0..n).map(|i| (vname(i), false)).collect();
+                    for (ci, c) in conj.iter().enumerate() {
+                        for v in c.free_names() {
+                            match idx.get(&v) {
+                                Some(i) => by_v[*i].push(ci),
+                                None => return Some(format!("{what} mentions '{v}', which is not a vertex")),
+                            }
+                        }
+                        base.push(eval_total(c, &mut env));
+                    }
+                    let nbase_false = base.iter().filter(|b| !**b).count();
+                    let mut eval_set = |set: &[usize]| -> bool {
+                        for v in set {
+                            env.insert(vname(*v), true);
+                        }
+                        let mut touched: Vec<usize> = set.iter().flat_map(|v| by_v[*v].iter().copied()).collect();
+                        touched.sort_unstable();
+                        touched.dedup();
+                        let untouched_false = nbase_false - touched.iter().filter(|ci| !base[**ci]).count();
+                        let r = untouched_false == 0 && touched.iter().all(|ci| eval_total(conj[*ci], &mut env));
+                        for v in set {
+                            env.insert(vname(*v), false);
+                        }
+                        r
+                    };
+                    if !eval_set(&[]) {
+                        return Some(format!("{what} rejects the empty vertex set"));
+                    }
+                    for i in 0..n {
+                        if !eval_set(&[i]) {
+                            return Some(format!("{what} rejects the single vertex {}", vname(i)));
+                        }
+                        for j in 0..i {
+                            let clique = adj[i][j];
+                            if eval_set(&[j, i]) != clique {
+                                return Some(format!("{what} says {} about the pair {{{}, {}}}, which is {}adjacent", !clique, vname(j), vname(i), if clique { "" } else { "not " }));
+                            }
+                        }
+                    }
+                    None
+                };
+                if let Some(c) = judge(&plain, &name, "the clique constraint") {
+                    return Ok(Some(c));
+                }
+                if all {
+                    if !quant.is_empty() {
+                        return Ok(Some("a quantifier although every clique was asked for (-a)".into()));
+                    }
+                    return Ok(None);
+                }
+                if quant.len() != 1 {
+                    return Ok(Some(format!("{} maximality quantifiers", quant.len())));
+                }
+                // forall copies # premise => [vertices] >= [copies]
+                if let refl::Ast::Q(false, vs, body) = quant[0] {
+                    if let refl::Ast::Bin(refl::Bin::Implies, prem, concl) = body.as_ref() {
+                        if let refl::Ast::CV(refl::Cmp::AtLeast, l, r) = concl.as_ref() {
+                            let ln: Vec<String> = l.iter().filter_map(|x| if let refl::Ast::Var(v) = x { Some(v.clone()) } else { None }).collect();
+                            let rn: Vec<String> = r.iter().filter_map(|x| if let refl::Ast::Var(v) = x { Some(v.clone()) } else { None }).collect();
+                            let mut sorted_l = ln.clone();
+                            sorted_l.sort();
+                            sorted_l.dedup();
+                            let mut sorted_r = rn.clone();
+                            sorted_r.sort();
+                            sorted_r.dedup();
+                            let mut sorted_vs = vs.clone();
+                            sorted_vs.sort();
+                            sorted_vs.dedup();
+                            if ln.len() != n || rn.len() != n || sorted_l.len() != n || sorted_r.len() != n || sorted_vs != sorted_r || !(0..n).all(|i| sorted_l.binary_search(&name(i)).is_ok()) {
+                                return Ok(Some(format!("the size comparison does not relate the {n} vertices to {n} distinct quantified copies ({} / {} operands, {} quantified names)", ln.len(), rn.len(), vs.len())));
+                            }
+                            let copy_of: FxHashMap<String, String> = ln.iter().cloned().zip(rn.iter().cloned()).collect();
+                            let cname = |i: usize| copy_of[&name(i)].clone();
+                            let pc = crate::puzzles::conjuncts(prem);
+                            if let Some(c) = judge(&pc, &cname, "the premise of the maximality condition") {
+                                return Ok(Some(c));
+                            }
+                            return Ok(None);
+                        }
+                    }
+                }
+                Ok(Some("SHAPE".into()))
+            })
+            .map_err(|e| format!("machinery: cannot start the evaluation thread: {e}"))
+            .and_then(|h| h.join().map_err(|_| "machinery: evaluation thread panicked".to_string()))
+            .and_then(|r| r)
+    });
+    match verdict {
+        Ok(None) => {}
+        Ok(Some(c)) if c == "SHAPE" => ctx.count("huge_graphs_shape_unrecognised", 1),
+        Ok(Some(c)) => ctx.violation(key, c, hcase),
+        Err(e) if e.starts_with("machinery") => panic!("{e}"),
+        Err(e) => ctx.violation(key, e, hcase),
+    }
+}
+
 fn pairs(names: &[&str], loops: bool) -> Vec<(String, String)> {
     let mut v = vec![];
     for a in names {
@@ -344,6 +499,15 @@ fn run(ctx: &mut Ctx) {
             }
         }
     }
+    // more than 256 vertices
+    for n in [257usize, 300] {
+        for (u, all) in [(true, true), (false, true), (true, false), (false, false)] {
+            idx2 += 1;
+            if ctx.mine(idx2) {
+                check_graph_huge(ctx, n, u, all);
+            }
+        }
+    }
     if th {
         let p4 = pairs(&["a", "b", "c", "d"], false);
         for mask in 0..(1usize << p4.len()) {
@@ -354,6 +518,10 @@ fn run(ctx: &mut Ctx) {
 }
 
 fn replay(ctx: &mut Ctx, c: &Value) {
+    if c["part"].as_str() == Some("huge") {
+        check_graph_huge(ctx, c["n"].as_u64().unwrap_or(257) as usize, c["undirected"].as_bool().unwrap_or(false), c["all"].as_bool().unwrap_or(false));
+        return;
+    }
     let edges: Vec<(String, String)> = c["edges"].as_array().map(|a| a.iter().map(|e| (e[0].as_str().unwrap_or("").to_string(), e[1].as_str().unwrap_or("").to_string())).collect()).unwrap_or_default();
     let nv = edges.iter().flat_map(|(a, b)| [a, b]).collect::<std::collections::BTreeSet<_>>().len();
     if nv > 10 {
